@@ -95,7 +95,7 @@ def shift_case(draw, tier):
         s = 0.0
     return {"N": N, "order": order, "s": s, "kind": kind, "seed": draw(st.integers(0, 2 ** 31 - 1)),
             "data": draw(st.sampled_from(["noise", "poly", "poly", "ints", "ramp"])),
-            "vec": draw(st.sampled_from(["smooth", "random", "piecewise", "out_of_range", "const_vec"])),
+            "vec": draw(st.sampled_from(["smooth", "random", "piecewise", "out_of_range", "const_vec", "nearly_const", "nearly_const"])),
             "vamp": draw(st.floats(0.0, 6.0))}
 
 
@@ -153,6 +153,10 @@ def _shift_vector(case):
         return v
     if case["vec"] == "out_of_range":
         return rng.uniform(-3 * N, 3 * N, N)
+    if case["vec"] == "nearly_const":
+        # constant up to a tiny modulation / jitter (relative 1e-7, absolute 1e-9): not a constant shift
+        base = case["s"] if case["s"] != 0 else 0.3
+        return base * (1.0 + 1e-7 * np.sin(2 * np.pi * n / max(N, 2))) + 1e-9 * rng.standard_normal(N)
     return np.full(N, case["s"])
 
 
